@@ -15,7 +15,9 @@ from ..native import unhex
 from . import c06, c07, c08, c09, c15, c19
 
 GAPS = [' ', '  ', '\n', '\r\n', '\t', ' \n\n   ', ' /* a + b; x++; require(a && b); */ ', ' // selfdestruct(msg.sender); a >= b\n',
-        ' /* 注释：乘法 a * 2，地址 address(0) */ ', '\n// コメント: keccak256(x) ≥ ≤ é€\n', ' /** doc * 4 / 2 */ ']
+        ' /* 注释：乘法 a * 2，地址 address(0) */ ', '\n// コメント: keccak256(x) ≥ ≤ é€\n', ' /** doc * 4 / 2 */ ',
+        # a carriage return alone is white space, and it ends a line comment just as a line feed does (it does not begin a new line)
+        '\r', ' // x++; selfdestruct(a); b >= c\r', ' /// doc: a / b * c\r  ']
 
 
 SAFE_PUNCT = '.(),;[]{}'
